@@ -287,18 +287,17 @@ Qed.
 (* ================================================================ the general merge *)
 Lemma merge_general_inv a b sm om fs fo r :
   merge_general a b sm om fs fo = ROk r ->
-  exists sord oord f_s f_o,
+  exists sord oord,
     order_for sm (sids a) (sids b) = Some sord /\ order_for om (oids a) (oids b) = Some oord /\
-    sord <> [] /\ oord <> [] /\ fs = Some f_s /\ fo = Some f_o /\
+    sord <> [] /\ oord <> [] /\
     r = mkT oord sord (map (merged_row a b sord) oord)
-            (merged_md f_o Obs a b oord) (merged_md f_s Samp a b sord) NOTYPE.
+            (merged_md (f_or_drop fo) Obs a b oord) (merged_md (f_or_drop fs) Samp a b sord) NOTYPE.
 Proof.
   unfold merge_general.
   destruct (order_for sm (sids a) (sids b)) as [sord|]; [|discriminate].
   destruct (order_for om (oids a) (oids b)) as [oord|]; [|discriminate].
   destruct sord as [|s0 sord]; [discriminate|]. destruct oord as [|o0 oord]; [discriminate|].
-  destruct fs as [f_s|]; [|discriminate]. destruct fo as [f_o|]; [|discriminate].
-  intros H. inversion H; subst. exists (s0 :: sord), (o0 :: oord), f_s, f_o.
+  intros H. inversion H; subst. exists (s0 :: sord), (o0 :: oord).
   repeat split; try reflexivity; discriminate.
 Qed.
 
@@ -346,17 +345,15 @@ Theorem merge_general_spec_proof a b sm om fs fo r :
   order_for sm (sids a) (sids b) = Some (sids r) /\
   order_for om (oids a) (oids b) = Some (oids r) /\
   (forall o s, In o (oids r) -> In s (sids r) -> cell r o s = Some (cell0 a o s + cell0 b o s)%Z) /\
-  (exists f_s f_o, fs = Some f_s /\ fo = Some f_o /\
-     forall ax i, In i (ids ax r) ->
-       md_norm (md_of ax r i) = md_norm (axis_f ax f_s f_o (md_of ax a i) (md_of ax b i))) /\
+  (forall ax i, In i (ids ax r) ->
+     md_norm (md_of ax r i) = md_norm (axis_f ax (f_or_drop fs) (f_or_drop fo) (md_of ax a i) (md_of ax b i))) /\
   ttype r = NOTYPE /\ wf r.
 Proof.
-  intros Wa Wb H. destruct (merge_general_inv _ _ _ _ _ _ _ H) as
-      (sord & oord & f_s & f_o & Es & Eo & Ns & No & Efs & Efo & Er).
+  intros Wa Wb H. destruct (merge_general_inv _ _ _ _ _ _ _ H) as (sord & oord & Es & Eo & Ns & No & Er).
   subst r. simpl. split; [exact Es|]. split; [exact Eo|]. split.
   - intros o s Ho Hs. apply general_cell; assumption.
   - split.
-    + exists f_s, f_o. split; [exact Efs|]. split; [exact Efo|]. intros ax i Hi. destruct ax; simpl in *.
+    + intros ax i Hi. destruct ax; simpl in *.
       * eapply general_md; [reflexivity|reflexivity|exact Hi].
       * eapply general_md; [reflexivity|reflexivity|exact Hi].
     + split; [reflexivity|]. apply general_wf.
@@ -381,21 +378,27 @@ Proof.
   - destruct (order_for sm (sids a) (sids b)); reflexivity.
 Qed.
 
-Theorem merge_general_none_refused a b sm om fs fo :
-  fs = None \/ fo = None -> exists c, merge_general a b sm om fs fo = RErr c.
+Lemma merged_md_drop ax a b idl : merged_md drop_md ax a b idl = None.
 Proof.
-  intros Hn. unfold merge_general.
-  destruct (order_for sm (sids a) (sids b)) as [sord|]; [|eexists; reflexivity].
-  destruct (order_for om (oids a) (oids b)) as [oord|]; [|eexists; reflexivity].
-  destruct sord; [eexists; reflexivity|]. destruct oord; [eexists; reflexivity|].
-  destruct Hn as [-> | ->]; [eexists; reflexivity|]. destruct fs; eexists; reflexivity.
+  unfold merged_md, drop_md. simpl.
+  assert (E : forallb md_falsy (map (fun _ : Z => md_none) idl) = true).
+  { apply forallb_forall. intros m Hm. apply in_map_iff in Hm. destruct Hm as [x [<- _]]. reflexivity. }
+  rewrite E. reflexivity.
+Qed.
+
+(* a function that is None: no metadata on that axis *)
+Theorem merge_general_none_md a b sm om fs fo r :
+  merge_general a b sm om fs fo = ROk r -> (fs = None -> smd r = None) /\ (fo = None -> omd r = None).
+Proof.
+  intros H. destruct (merge_general_inv _ _ _ _ _ _ _ H) as (sord & oord & _ & _ & _ & _ & ->).
+  split; intros ->; simpl; apply merged_md_drop.
 Qed.
 
 (* ... and nothing else is refused *)
-Theorem merge_general_succeeds a b sm om f_s f_o :
+Theorem merge_general_succeeds a b sm om fs fo :
   (match sm with Union => sids a <> [] \/ sids b <> [] | Inter => exists x, In x (sids a) /\ In x (sids b) | BadMode => False end) ->
   (match om with Union => oids a <> [] \/ oids b <> [] | Inter => exists x, In x (oids a) /\ In x (oids b) | BadMode => False end) ->
-  exists r, merge_general a b sm om (Some f_s) (Some f_o) = ROk r.
+  exists r, merge_general a b sm om fs fo = ROk r.
 Proof.
   assert (G : forall m x y,
     (match m with Union => x <> [] \/ y <> [] | Inter => exists z, In z x /\ In z y | BadMode => False end) ->
@@ -859,11 +862,11 @@ Theorem merge_dispatch_spec_proof self others sm om fs fo r :
   (fast_ok ts sm om fs fo = false ->
      fold_left (pair_step sm om fs fo) others (ROk self) = ROk r /\
      forall other, others = [other] ->
-       exists f_s f_o, fs = Some f_s /\ fo = Some f_o /\
          order_for sm (sids self) (sids other) = Some (sids r) /\
          order_for om (oids self) (oids other) = Some (oids r) /\
          forall ax i, In i (ids ax r) ->
-           md_norm (md_of ax r i) = md_norm (axis_f ax f_s f_o (md_of ax self i) (md_of ax other i))).
+           md_norm (md_of ax r i)
+           = md_norm (axis_f ax (f_or_drop fs) (f_or_drop fo) (md_of ax self i) (md_of ax other i))).
 Proof.
   intros Ws Wo Hsm Hom H ts.
   assert (Wts : Forall wf ts) by (constructor; assumption).
@@ -890,8 +893,8 @@ Proof.
   - intros F. split; [rewrite <- (dispatch_unfold _ _ _ _ _ _ F); exact H|].
     intros other ->. rewrite (dispatch_single _ _ _ _ _ _ F) in H.
     inversion Wo as [|? ? Wother _]; subst.
-    destruct (merge_general_spec_proof _ _ _ _ _ _ _ Ws Wother H) as (Es & Eo & _ & (f_s & f_o & A & B & C) & _).
-    exists f_s, f_o. repeat (split; [assumption|]). exact C.
+    destruct (merge_general_spec_proof _ _ _ _ _ _ _ Ws Wother H) as (Es & Eo & _ & C & _).
+    split; [exact Es|]. split; [exact Eo|exact C].
 Qed.
 
 Theorem merge_dispatch_bad_mode self others sm om fs fo :
@@ -923,8 +926,7 @@ Proof.
   intros Wa Wb H rf.
   assert (Wab : Forall wf [a; b]) by (constructor; [exact Wa|constructor; [exact Wb|constructor]]).
   destruct (fast_merge_spec_proof [a; b] Wab) as (Wf & _ & _ & Hid & Hc & Mo & Ms & _). fold rf in Wf, Hid, Hc, Mo, Ms.
-  destruct (merge_general_spec_proof _ _ _ _ _ _ _ Wa Wb H) as (Es & Eo & Gc & (g_s & g_o & Egs & Ego & Gm) & _ & Wg).
-  inversion Egs; subst g_s. inversion Ego; subst g_o.
+  destruct (merge_general_spec_proof _ _ _ _ _ _ _ Wa Wb H) as (Es & Eo & Gc & Gm & _ & Wg).
   assert (IdS : forall x, In x (sids rf) <-> In x (sids rg)).
   { intros x. rewrite (Hid Samp x). rewrite (order_for_In _ _ _ _ x Es). unfold in_some, pair_ids. simpl. split.
     - intros [t [[<-|[<-|[]]] Hx]]; auto.
@@ -1020,25 +1022,34 @@ Proof.
   rewrite (Ht t (or_introl eq_refl)). transitivity (md_norm (f None None)); [apply R; [exact Ha|reflexivity]|exact N].
 Qed.
 
-Definition InvMd (f_s f_o : mdf) (self : table) (done : list table) (m : table) : Prop :=
-  forall ax i, In i (ids ax m) ->
-    md_norm (md_of ax m i) = md_norm (md_fold (axis_f ax f_s f_o) ax self done i).
+Lemma drop_md_respects : respects_norm drop_md.
+Proof. split; reflexivity. Qed.
 
-Lemma inv_md_step sm om f_s f_o self done m other r :
-  respects_norm f_s -> respects_norm f_o ->
-  Inv sm om (self :: done) m -> InvMd f_s f_o self done m -> wf other ->
-  merge_pair sm om (Some f_s) (Some f_o) m other = ROk r ->
-  InvMd f_s f_o self (done ++ [other]) r.
+Lemma md_fold_drop ax self others i : others <> [] -> md_fold drop_md ax self others i = None.
+Proof.
+  intros Hne. destruct (exists_last Hne) as (l & t & ->). rewrite md_fold_snoc. reflexivity.
+Qed.
+
+Definition InvMd (fs fo : option mdf) (self : table) (done : list table) (m : table) : Prop :=
+  forall ax i, In i (ids ax m) ->
+    md_norm (md_of ax m i) = md_norm (md_fold (axis_f ax (f_or_drop fs) (f_or_drop fo)) ax self done i).
+
+Lemma inv_md_step sm om fs fo self done m other r :
+  respects_norm (f_or_drop fs) -> respects_norm (f_or_drop fo) ->
+  Inv sm om (self :: done) m -> InvMd fs fo self done m -> wf other ->
+  merge_pair sm om fs fo m other = ROk r ->
+  InvMd fs fo self (done ++ [other]) r.
 Proof.
   intros Rs Ro (Wm & Is & Io & Ic) HM Wo H ax i Hi.
   rewrite md_fold_snoc.
-  assert (Rf : respects_norm (axis_f ax f_s f_o)) by (destruct ax; assumption).
+  assert (Rf : respects_norm (axis_f ax (f_or_drop fs) (f_or_drop fo))) by (destruct ax; assumption).
   destruct (merge_pair_spec _ _ _ _ _ _ _ Wm Wo H) as (_ & Ps & Po & _).
   assert (Pax : In i (ids ax r) <-> pair_ids (axis_f ax sm om) (ids ax m) (ids ax other) i)
     by (destruct ax; [apply Po|apply Ps]).
   assert (Iax : In i (ids ax m) <-> id_set (axis_f ax sm om) ax (self :: done) i)
     by (destruct ax; [apply Io|apply Is]).
-  assert (Key : md_norm (md_of ax m i) = md_norm (md_fold (axis_f ax f_s f_o) ax self done i)).
+  assert (Key : md_norm (md_of ax m i)
+                = md_norm (md_fold (axis_f ax (f_or_drop fs) (f_or_drop fo)) ax self done i)).
   { destruct (in_dec Z.eq_dec i (ids ax m)) as [Him|Him]; [apply HM; exact Him|].
     rewrite (md_of_absent ax m i Him). symmetry.
     assert (Abs : forall t, In t (self :: done) -> ~ In i (ids ax t)).
@@ -1049,30 +1060,31 @@ Proof.
     unfold md_fold. apply md_fold_none; [exact Rf| |].
     - rewrite (md_of_absent ax self i); [reflexivity|]. apply Abs. left. reflexivity.
     - intros t Ht. apply md_of_absent. apply Abs. right. exact Ht. }
-  unfold merge_pair in H. destruct (fast_ok [m; other] sm om (Some f_s) (Some f_o)) eqn:F.
+  unfold merge_pair in H. destruct (fast_ok [m; other] sm om fs fo) eqn:F.
   - inversion H; subst r; clear H.
-    destruct (fast_ok_inv _ _ _ _ _ F) as (_ & _ & [A|[A _]]); [|discriminate].
-    simpl in A. apply andb_true_iff in A. destruct A as [Nm A]. apply andb_true_iff in A. destruct A as [No _].
-    apply no_md_spec in Nm. apply no_md_spec in No.
     rewrite (md_of_no_md ax (fast_merge [m; other]) i) by (destruct ax; reflexivity).
-    rewrite (md_of_no_md ax other i) by (destruct ax; tauto).
-    rewrite (md_of_no_md ax m i) in Key by (destruct ax; tauto).
-    symmetry. transitivity (md_norm (axis_f ax f_s f_o None None)); [apply (proj1 Rf); [symmetry; exact Key|reflexivity]|exact (proj2 Rf)].
-  - destruct (merge_general_spec_proof _ _ _ _ _ _ _ Wm Wo H) as (_ & _ & _ & (g_s & g_o & E1 & E2 & Gm) & _).
-    inversion E1; subst g_s. inversion E2; subst g_o.
+    destruct (fast_ok_inv _ _ _ _ _ F) as (_ & _ & [A|[-> ->]]).
+    + simpl in A. apply andb_true_iff in A. destruct A as [Nm A]. apply andb_true_iff in A. destruct A as [No _].
+      apply no_md_spec in Nm. apply no_md_spec in No.
+      rewrite (md_of_no_md ax other i) by (destruct ax; tauto).
+      rewrite (md_of_no_md ax m i) in Key by (destruct ax; tauto).
+      symmetry. transitivity (md_norm (axis_f ax (f_or_drop fs) (f_or_drop fo) None None));
+        [apply (proj1 Rf); [symmetry; exact Key|reflexivity]|exact (proj2 Rf)].
+    + destruct ax; reflexivity.
+  - destruct (merge_general_spec_proof _ _ _ _ _ _ _ Wm Wo H) as (_ & _ & _ & Gm & _).
     rewrite (Gm ax i Hi). apply (proj1 Rf); [exact Key|reflexivity].
 Qed.
 
-Lemma inv_md_fold sm om f_s f_o self others :
-  respects_norm f_s -> respects_norm f_o -> forall done m r,
-  Inv sm om (self :: done) m -> InvMd f_s f_o self done m -> Forall wf others ->
-  fold_left (pair_step sm om (Some f_s) (Some f_o)) others (ROk m) = ROk r ->
-  InvMd f_s f_o self (done ++ others) r.
+Lemma inv_md_fold sm om fs fo self others :
+  respects_norm (f_or_drop fs) -> respects_norm (f_or_drop fo) -> forall done m r,
+  Inv sm om (self :: done) m -> InvMd fs fo self done m -> Forall wf others ->
+  fold_left (pair_step sm om fs fo) others (ROk m) = ROk r ->
+  InvMd fs fo self (done ++ others) r.
 Proof.
   intros Rs Ro. induction others as [|o others IH]; intros done m r HI HM W H.
   - inversion H; subst. rewrite app_nil_r. exact HM.
   - inversion W as [|? ? Wo Wr]; subst. cbn [fold_left pair_step] in H.
-    destruct (merge_pair sm om (Some f_s) (Some f_o) m o) as [m'|c] eqn:E.
+    destruct (merge_pair sm om fs fo m o) as [m'|c] eqn:E.
     + replace (done ++ o :: others) with ((done ++ [o]) ++ others) by (rewrite <- app_assoc; reflexivity).
       apply (IH (done ++ [o]) m' r).
       * change (self :: done ++ [o]) with ((self :: done) ++ [o]). eapply inv_step; eassumption.
@@ -1083,27 +1095,32 @@ Proof.
 Qed.
 
 (* whatever path is taken, the metadata of an id is the function applied from left to right to the
-   operands' metadata for that id (up to None = empty dict) *)
-Theorem merge_dispatch_md_proof self others sm om f_s f_o r :
+   operands' metadata for that id (up to None = empty dict); a function that is None drops the metadata *)
+Theorem merge_dispatch_md_proof self others sm om fs fo r :
   wf self -> Forall wf others -> sm <> BadMode -> om <> BadMode ->
-  respects_norm f_s -> respects_norm f_o ->
-  merge_dispatch self others sm om (Some f_s) (Some f_o) = ROk r ->
+  respects_norm (f_or_drop fs) -> respects_norm (f_or_drop fo) ->
+  others <> [] \/ ~ (fs = None /\ fo = None) ->
+  merge_dispatch self others sm om fs fo = ROk r ->
   forall ax i, In i (ids ax r) ->
-    md_norm (md_of ax r i) = md_norm (md_fold (axis_f ax f_s f_o) ax self others i).
+    md_norm (md_of ax r i) = md_norm (md_fold (axis_f ax (f_or_drop fs) (f_or_drop fo)) ax self others i).
 Proof.
-  intros Ws Wo Hsm Hom Rs Ro H.
-  destruct (fast_ok (self :: others) sm om (Some f_s) (Some f_o)) eqn:F.
+  intros Ws Wo Hsm Hom Rs Ro Hdom H.
+  destruct (fast_ok (self :: others) sm om fs fo) eqn:F.
   - unfold merge_dispatch in H. rewrite F in H. inversion H; subst r; clear H.
-    destruct (fast_ok_inv _ _ _ _ _ F) as (_ & _ & [A|[A _]]); [|discriminate].
-    rewrite forallb_forall in A. intros ax i _.
+    intros ax i _.
     rewrite (md_of_no_md ax (fast_merge (self :: others)) i) by (destruct ax; reflexivity).
-    symmetry. unfold md_fold. apply md_fold_none; [destruct ax; assumption| |].
-    + rewrite md_of_no_md; [reflexivity|].
-      assert (N : no_md self = true) by (apply A; left; reflexivity). apply no_md_spec in N. destruct ax; tauto.
-    + intros t Ht. apply md_of_no_md.
-      assert (N : no_md t = true) by (apply A; right; exact Ht). apply no_md_spec in N. destruct ax; tauto.
+    destruct (fast_ok_inv _ _ _ _ _ F) as (_ & _ & [A|[E1 E2]]).
+    + rewrite forallb_forall in A.
+      symmetry. unfold md_fold. apply md_fold_none; [destruct ax; assumption| |].
+      * rewrite md_of_no_md; [reflexivity|].
+        assert (N : no_md self = true) by (apply A; left; reflexivity). apply no_md_spec in N. destruct ax; tauto.
+      * intros t Ht. apply md_of_no_md.
+        assert (N : no_md t = true) by (apply A; right; exact Ht). apply no_md_spec in N. destruct ax; tauto.
+    + destruct Hdom as [Hne|Hn]; [|exfalso; apply Hn; split; assumption].
+      subst fs fo. replace (axis_f ax (f_or_drop None) (f_or_drop None)) with drop_md by (destruct ax; reflexivity).
+      rewrite (md_fold_drop ax self others i Hne). reflexivity.
   - rewrite (dispatch_unfold _ _ _ _ _ _ F) in H.
-    apply (inv_md_fold sm om f_s f_o self others Rs Ro [] self r); try assumption.
+    apply (inv_md_fold sm om fs fo self others Rs Ro [] self r); try assumption.
     + apply inv_init; assumption.
     + intros ax i _. reflexivity.
 Qed.
